@@ -156,6 +156,15 @@ func c15Round(r *core.Run, idx int, rng *rand.Rand) {
 			<-start
 			do := func(kind string, rq env.Req) *env.Call {
 				rq.Host = st.host
+				// the connection is slow now and then: the handler blocks inside Write while others run
+				rq.OnWrite = func() {
+					switch n := dctr.Add(1); n % 5 {
+					case 0:
+						runtime.Gosched()
+					case 2:
+						time.Sleep(time.Duration(5+n%40) * time.Microsecond)
+					}
+				}
 				if forwarded {
 					rq.Host = "lb.internal"
 					rq.Headers = map[string][]string{"Forwarded": {"for=192.0.2.1;host=" + st.host + ";proto=https"}}
@@ -380,7 +389,7 @@ func init() {
 		TimeoutQuick: 10 * time.Minute, TimeoutThorough: 60 * time.Minute,
 		Build: func(c *Ctx) []core.Workload {
 			r := c.Run
-			r.Rule = "one provider instance with a host-derived issuer (from the Host header, or - every other round - from the Forwarded header while all clients share one upstream Host) serves N = 16 / 32 / 64 concurrent clients (GOMAXPROCS 2 / 4 / 16), each running a random mix of SSO, callback (pending and completed), logout, attribute query, metadata and certificate requests for its own sessions, service provider, user and Host, with Gosched / microsecond-millisecond delays injected inside every storage call; the binary is built with -race. Monitors: (1) every DATA RACE report of the race detector with repo frames; (2) every canary token (client number in request IDs, RelayState, consumer URLs, entity IDs, Host, user attributes) found in a fully decoded reply must be the requesting client's, and what is persisted must be the client's own; (3) every Response / Assertion / metadata ID seen in the run is an xs:ID and pairwise distinct. Evidence lists max in-flight requests and distinct interleaving signatures of the storage log. Evaluations = requests served; distinct = distinct interleaving signatures (the sequence of other requests' storage operations observed between a request's first and last storage event)."
+			r.Rule = "one provider instance with a host-derived issuer (from the Host header, or - every other round - from the Forwarded header while all clients share one upstream Host) serves N = 16 / 32 / 64 concurrent clients (GOMAXPROCS 2 / 4 / 16), each running a random mix of SSO, callback (pending and completed), logout, attribute query, metadata and certificate requests for its own sessions, service provider, user and Host, with Gosched / microsecond-millisecond delays injected inside every storage call and at the start of ResponseWriter.Write (a slow connection); the binary is built with -race. Monitors: (1) every DATA RACE report of the race detector with repo frames; (2) every canary token (client number in request IDs, RelayState, consumer URLs, entity IDs, Host, user attributes) found in a fully decoded reply must be the requesting client's, and what is persisted must be the client's own; (3) every Response / Assertion / metadata ID seen in the run is an xs:ID and pairwise distinct. Evidence lists max in-flight requests and distinct interleaving signatures of the storage log. Evaluations = requests served; distinct = distinct interleaving signatures (the sequence of other requests' storage operations observed between a request's first and last storage event)."
 			r.Require("requests", int64(c.Pick(3000, 100000)))
 			r.Require("max_in_flight", 4)
 			r.Require("distinct_interleaving_signatures", 100)
